@@ -686,6 +686,11 @@ func trafficCase(c *core.Case, pl *trafficPlan) {
 		return
 	}
 	flSent, otSent := flatten(flLogs), flatten(otLogs)
+	for _, s := range flSent {
+		if s.OK && s.Size == 0 {
+			run.Count("mconn_empty_messages_accepted", 1)
+		}
+	}
 	// the other side's messages: wait until the flusher has received as many as were accepted
 	otOK := 0
 	for _, s := range otSent {
@@ -739,9 +744,6 @@ func trafficCase(c *core.Case, pl *trafficPlan) {
 		if s.OK {
 			nOK++
 			packets += (s.Size + pl.Cfg.Payload - 1) / pl.Cfg.Payload
-			if s.Size == 0 {
-				run.Count("mconn_empty_messages_sent", 1)
-			}
 			for _, sp := range pl.Cfg.Channels {
 				if sp.ID == s.Ch && s.Size == sp.RecvCap {
 					run.Count("mconn_messages_of_exactly_capacity", 1)
